@@ -484,4 +484,39 @@ Qed.
 
 End BFTop.
 
+
+(* ---------- searching a boundary suffix ---------- *)
+
+Lemma match_at_suffix s sub b k : match_at (skipn (off s b) s) sub k = match_at s sub (b + k).
+Proof. unfold SpecIndex.match_at. rewrite (key_skipn_off fold), skipn_skipn_add. reflexivity. Qed.
+
+Lemma index_suffix s sub b :
+  (b <= rune_count s)%nat -> (forall a', (a' < b)%nat -> match_at s sub a' = false) ->
+  index fold s sub =
+  (let j := index fold (skipn (off s b) s) sub in if j <? 0 then -1 else Z.of_nat (off s b) + j).
+Proof.
+  intros Hb Hno. cbv zeta. set (rest := skipn (off s b) s).
+  unfold index at 2 3. destruct (find_first (K sub) (K rest) 0) as [k|] eqn:F; cbn [offz].
+  - apply find_first_some in F as (d & -> & Hd & Hm & Hn). cbn [Nat.add] in *.
+    replace (Z.of_nat (off rest d) <? 0) with false by lia.
+    assert (Hdr : (d <= rune_count rest)%nat) by (rewrite <- (key_length fold); exact Hd).
+    assert (Erc : rune_count rest = (rune_count s - b)%nat) by (unfold rest, rune_count; rewrite segs_skipn_off; apply skipn_length).
+    rewrite (index_at fold s sub (b + d)).
+    + rewrite off_add. unfold rest. lia.
+    + rewrite <- match_at_suffix. exact Hm.
+    + intros a' Ha'. destruct (le_lt_dec b a') as [Hge|Hlt]; [|apply Hno; exact Hlt].
+      replace a' with (b + (a' - b))%nat by lia. rewrite <- match_at_suffix. apply Hn. lia.
+    + lia.
+  - cbn. apply (index_none fold). intros a'. destruct (le_lt_dec b a') as [Hge|Hlt]; [|apply Hno; exact Hlt].
+    replace a' with (b + (a' - b))%nat by lia. rewrite <- match_at_suffix. apply (find_first_none _ _ _ F).
+Qed.
+
+Lemma seg_width_off s a : (a < rune_count s)%nat -> seg_width s (Z.of_nat (off s a)) = Z.of_nat (off s (S a)) - Z.of_nat (off s a).
+Proof.
+  intros Ha. destruct (rune_at s a Ha) as (_ & _ & F). unfold seg_width. rewrite Nat2Z.id.
+  destruct (skipn (off s a) s) as [|b t] eqn:Sk.
+  { exfalso. apply (f_equal (@length Z)) in Sk. rewrite skipn_length in Sk. pose proof (off_lt_len s a Ha). cbn in Sk. lia. }
+  rewrite first_rune_cons in F. inversion F. reflexivity.
+Qed.
+
 End Idx.
